@@ -11,8 +11,12 @@ package main
 
 import (
 	"fmt"
+	"go/ast"
+	"go/parser"
+	"go/token"
 	"os"
 	"path/filepath"
+	"sort"
 	"strconv"
 	"strings"
 	"time"
@@ -322,9 +326,9 @@ func genStage(r *vlib.Rand, lib string, items []int, wild, cbFault bool, flatUse
 		return pick(r, "eq", "par")
 	}
 	for {
-		w := []int{12, 10, 12, 12, 10, 10, 5, 6, 8, 10, 4}
+		w := []int{12, 10, 12, 12, 10, 10, 5, 6, 8, 10, 4, 4}
 		if lib == "xs" {
-			w = []int{12, 10, 12, 12, 0, 0, 0, 0, 8, 10, 0}
+			w = []int{12, 10, 12, 12, 0, 0, 0, 0, 8, 10, 0, 5}
 		}
 		switch r.Pick(w...) {
 		case 0:
@@ -381,23 +385,72 @@ func genStage(r *vlib.Rand, lib string, items []int, wild, cbFault bool, flatUse
 			if lib != "xs" {
 				return "peek"
 			}
+		case 11:
+			return "compactw" // the Compact wrapper (comparable elements)
 		}
 	}
 }
 
-func genPipeline(r *vlib.Rand, lib string, maxDepth int, faults, wild bool) ([]string, []int) {
-	items := genItems(r, 8)
+// genHead: the source of a pipeline. Besides the instrumented scripted source (`src=`, which stands for
+// iterator.Slice / a user stream and carries the pull and Close logs) every constructor of the two
+// packages: Slice, Counter, Repeat, Empty, Chan (iterator); FromIterator, Chan, Empty, Error (stream).
+// ctxOK = false: the head must only be driven with live contexts (stream.Chan: with an expired context
+// both arms of its select are ready and Go picks either).
+func genHead(r *vlib.Rand, lib string, faults bool) (tok string, items []int, ctxOK bool) {
+	items = genItems(r, 8)
 	pt, pf := 0, 0
 	if faults && lib == "st" {
 		pt, pf = 12, 25
 	}
-	toks := []string{"src=" + script(r, items, pt, pf)}
+	plain := func() string { return script(r, items, 0, 0) }
+	switch lib {
+	case "it":
+		switch r.Pick(70, 6, 7, 5, 4, 8) {
+		case 1:
+			return "slice=" + plain(), items, true
+		case 2:
+			n := r.Range(-1, 6)
+			items = nil
+			for i := 0; i < n; i++ {
+				items = append(items, i)
+			}
+			return "counter=" + strconv.Itoa(n), items, true
+		case 3:
+			n := r.Range(-1, 4)
+			items = nil
+			for i := 0; i < n; i++ {
+				items = append(items, 5)
+			}
+			return "repeat=" + strconv.Itoa(n), items, true
+		case 4:
+			return "empty", nil, true
+		case 5:
+			return "chan=" + plain(), items, true
+		}
+	case "st":
+		switch r.Pick(72, 9, 8, 4, 7) {
+		case 1:
+			return "fromit=" + plain(), items, true
+		case 2:
+			return "chan=" + plain(), items, false
+		case 3:
+			return "empty", nil, true
+		case 4:
+			return "error=" + strconv.Itoa(r.Intn(50)), nil, true
+		}
+	}
+	return "src=" + script(r, items, pt, pf), items, true
+}
+
+func genPipeline(r *vlib.Rand, lib string, maxDepth int, faults, wild bool) ([]string, []int, bool) {
+	head, items, ctxOK := genHead(r, lib, faults)
+	toks := []string{head}
 	flatUsed := false
 	d := r.Intn(maxDepth + 1)
 	for i := 0; i < d; i++ {
 		toks = append(toks, genStage(r, lib, items, wild, faults, &flatUsed))
 	}
-	return toks, items
+	return toks, items, ctxOK
 }
 
 func nextOps(r *vlib.Rand, lib string, n int, pExpired int, closeAt int) []string {
@@ -429,13 +482,13 @@ func genCase(r *vlib.Rand) {
 		if faults {
 			lib = "st"
 		}
-		toks, items := genPipeline(r, lib, 4, faults, wild)
+		toks, items, ctxOK := genPipeline(r, lib, 4, faults, wild)
 		n := len(items) + 3
 		if r.Chance(1, 4) {
 			n = r.Intn(n + 1)
 		}
 		pe := 0
-		if faults {
+		if faults && ctxOK {
 			pe = 20
 		}
 		ops := nextOps(r, lib, n+r.Intn(3), pe, -1)
@@ -443,9 +496,9 @@ func genCase(r *vlib.Rand) {
 	case 2: // reducers
 		lib := pick(r, "st", "st", "it")
 		faults := lib == "st" && r.Chance(1, 2)
-		toks, items := genPipeline(r, lib, 3, faults, wild)
+		toks, items, ctxOK := genPipeline(r, lib, 3, faults, wild)
 		ctx := "1"
-		if faults && r.Chance(1, 6) {
+		if faults && ctxOK && r.Chance(1, 6) {
 			ctx = "0"
 		}
 		var op string
@@ -482,11 +535,11 @@ func genCase(r *vlib.Rand) {
 	case 3: // Peek interleavings
 		lib := pick(r, "st", "it")
 		faults := lib == "st" && r.Chance(1, 2)
-		toks, items := genPipeline(r, lib, 2, faults, wild)
+		toks, items, ctxOK := genPipeline(r, lib, 2, faults, wild)
 		var ops []string
 		for i := 0; i < len(items)+3+r.Intn(4); i++ {
 			c := " 1"
-			if faults && r.Chance(1, 5) {
+			if faults && ctxOK && r.Chance(1, 5) {
 				c = " 0"
 			}
 			if lib == "it" {
@@ -502,7 +555,7 @@ func genCase(r *vlib.Rand) {
 	case 4: // Runs through its ports, within the documented protocol
 		lib := pick(r, "st", "it")
 		faults := lib == "st" && r.Chance(1, 2)
-		toks, items := genPipeline(r, lib, 1, faults, wild)
+		toks, items, ctxOK := genPipeline(r, lib, 1, faults, wild)
 		rel := pick(r, "eq", "par", "par", "le")
 		if wild {
 			rel = pick(r, "near", "le")
@@ -512,7 +565,7 @@ func genCase(r *vlib.Rand) {
 		drained := true
 		for i := 0; i < 2*len(items)+4; i++ {
 			c := " 1"
-			if faults && r.Chance(1, 6) {
+			if faults && ctxOK && r.Chance(1, 6) {
 				c = " 0"
 			}
 			if lib == "it" {
@@ -546,27 +599,51 @@ func genCase(r *vlib.Rand) {
 		}
 		check(append([]string{lib + "rp " + rel + " " + strings.Join(toks, " ")}, fixHandles(lib, rel, toks, ops)...))
 	case 5: // xslices
-		toks, _ := genPipeline(r, "xs", 3, false, wild)
+		toks, items, _ := genPipeline(r, "xs", 3, false, wild)
 		if r.Chance(1, 10) {
 			toks = append(toks, "repeat="+strconv.Itoa(r.Range(0, 4)))
 		}
+		switch r.Pick(6, 2, 2) {
+		case 1:
+			toks = append(toks, "reduce")
+		case 2:
+			other := items
+			if r.Chance(1, 2) {
+				other = genItems(r, 8)
+			}
+			toks = append(toks, "equal="+itemsStr(other))
+		}
 		check([]string{"xs " + strings.Join(toks, " ")})
 	case 6: // cross-version agreement
-		toks, _ := genPipeline(r, "xs", 3, false, false)
-		line := strings.Join(toks, " ")
-		check([]string{"it " + line, "icollect 0"})
-		check([]string{"st " + line, "collect 1"})
-		check([]string{"xs " + line})
+		toks, items, _ := genPipeline(r, "xs", 3, false, false)
+		switch r.Pick(6, 2, 2, 1) {
+		case 1: // Reduce: iterator / stream / xslices
+			toks = append(toks, "reduce")
+		case 2: // Equal: iterator.Equal of the pipeline and a slice vs xslices.Equal
+			other := items
+			if r.Chance(1, 2) {
+				other = genItems(r, 8)
+			}
+			toks = append(toks, "equal="+itemsStr(other))
+		case 3: // Repeat: iterator.Repeat vs xslices.Repeat
+			toks = []string{"src=5", "repeat=" + strconv.Itoa(r.Range(0, 5))}
+		}
+		it, st, xs := agreeLines(toks)
+		for _, c := range [][]string{it, st, xs} {
+			if c != nil {
+				check(c)
+			}
+		}
 		res.Count("agree")
 		reportAgree(toks)
 	case 7: // Equal
 		n := r.Range(0, 3)
 		var lines []string
-		base, _ := genPipeline(r, "xs", 2, false, false)
+		base, _, _ := genPipeline(r, "xs", 2, false, false)
 		for i := 0; i < n; i++ {
 			t := base
 			if r.Chance(1, 3) {
-				t, _ = genPipeline(r, "xs", 2, false, false)
+				t, _, _ = genPipeline(r, "xs", 2, false, false)
 			}
 			lines = append(lines, "it "+strings.Join(t, " "))
 		}
@@ -580,25 +657,30 @@ func genCase(r *vlib.Rand) {
 // fixHandles rewrites the handle numbers of a generated port scenario so that they refer to the runs
 // actually handed out (the generator guessed one handle per outer call), by replaying on the implementation.
 func fixHandles(lib, rel string, toks []string, ops []string) []string {
-	st := &implState{}
-	st.exec(lib + "rp " + rel + " " + strings.Join(toks, " "))
-	out := make([]string, 0, len(ops))
-	for _, o := range ops {
-		f := strings.Fields(o)
-		switch f[0] {
-		case "inext", "iinext":
-			want := atoi(f[1])
-			if want >= st.gen { // "current" handle
-				f[1] = strconv.Itoa(st.gen)
+	build := lib + "rp " + rel + " " + strings.Join(toks, " ")
+	var out []string
+	// under the watchdog of runImpl: a source that never ends makes the outer Next loop for ever
+	watched(append([]string{build}, ops...), func() {
+		st := &implState{}
+		st.exec(build)
+		out = make([]string, 0, len(ops))
+		for _, o := range ops {
+			f := strings.Fields(o)
+			switch f[0] {
+			case "inext", "iinext":
+				want := atoi(f[1])
+				if want >= st.gen { // "current" handle
+					f[1] = strconv.Itoa(st.gen)
+				}
+				if st.gen == 0 {
+					continue
+				}
+				o = strings.Join(f, " ")
 			}
-			if st.gen == 0 {
-				continue
-			}
-			o = strings.Join(f, " ")
+			st.exec(o)
+			out = append(out, o)
 		}
-		st.exec(o)
-		out = append(out, o)
-	}
+	})
 	return out
 }
 
@@ -655,6 +737,7 @@ func stageConfigs(lib string, n int) [][]string {
 	}
 	add("compact=eq")
 	add("compact=par")
+	add("compactw")
 	add("filter=even")
 	add("filter=nz")
 	add("map=inc")
@@ -704,6 +787,39 @@ func exhaustive(deadline time.Time) bool {
 		return false
 	}
 	// 1. fault-free: every input over {0,1} up to length 6 x every combinator x every parameter
+	// 0. every constructor: Counter / Repeat for n = -1..7, Empty, Error; Slice, Chan, FromIterator over every input
+	for n := -1; n <= 7; n++ {
+		check([]string{"it counter=" + strconv.Itoa(n), "icollect 0"})
+		check([]string{"it repeat=" + strconv.Itoa(n), "icollect 0"})
+		check([]string{"it counter=" + strconv.Itoa(n), "inextit 0", "inextit 0", "inextit 0"})
+		check([]string{"xs src=5 repeat=" + strconv.Itoa(n)})
+	}
+	check([]string{"it empty", "inextit 0", "inextit 0"})
+	check([]string{"st empty", "next 1", "next 0", "next 1", "close"})
+	check([]string{"st error=3", "next 1", "next 0", "close"})
+	allInputs(5, func(items []int) {
+		src := itemsStr(items)
+		nx := make([]string, len(items)+2)
+		ix := make([]string, len(items)+2)
+		for i := range nx {
+			nx[i], ix[i] = "next 1", "inextit 0"
+		}
+		for _, h := range []string{"slice=", "chan="} {
+			check(append([]string{"it " + h + src}, ix...))
+			check([]string{"it " + h + src + " compactw", "icollect 0"})
+		}
+		for _, h := range []string{"fromit=", "chan="} {
+			check(append(append([]string{"st " + h + src}, nx...), "close"))
+			check([]string{"st " + h + src + " compactw", "collect 1"})
+		}
+		check(append(append([]string{"st fromit=" + src, "next 0"}, nx...), "close"))
+		check([]string{"xs src=" + src + " reduce"})
+		check([]string{"xs src=" + src + " equal=" + src})
+		check([]string{"xs src=" + src + " equal=" + itemsStr(append(append([]int{}, items...), 1))})
+		reportAgree([]string{"src=" + src, "reduce"})
+		reportAgree([]string{"src=" + src, "equal=" + src})
+		reportAgree([]string{"src=" + src, "compactw"})
+	})
 	allInputs(6, func(items []int) {
 		if over() {
 			return
@@ -883,7 +999,7 @@ func reportAgreeIfCommon(toks []string) {
 	for _, t := range toks[1:] {
 		k, arg := splitTok(t)
 		switch k {
-		case "chunk", "compact", "filter", "map", "join":
+		case "chunk", "compact", "compactw", "filter", "map", "join":
 		case "runs":
 			if !strings.HasSuffix(arg, ",all,0") && !strings.HasSuffix(arg, ",all,1") {
 				return
@@ -894,6 +1010,97 @@ func reportAgreeIfCommon(toks []string) {
 	}
 	res.Count("agree")
 	reportAgree(toks)
+}
+
+// ---------------------------------------------------------------------------------------------
+// API coverage of the generator: every exported function of iterator, of stream (the caller's-goroutine
+// part) and every xslices function that has an iterator/stream namesake must have been called by the
+// cases of this run. The list is read from the source tree under test, not written here.
+
+// goroutine-backed constructors of package stream: owned by the checks named
+var apiElsewhere = map[string]string{"stream.Pipe": "C10", "stream.Batch": "C11", "stream.BatchFunc": "C11", "stream.Merge": "C12"}
+
+func exportedFuncs(dir string) []string {
+	fset := token.NewFileSet()
+	ents, err := os.ReadDir(dir)
+	if err != nil {
+		return nil
+	}
+	seen := map[string]bool{}
+	for _, e := range ents {
+		n := e.Name()
+		if !strings.HasSuffix(n, ".go") || strings.HasSuffix(n, "_test.go") {
+			continue
+		}
+		f, err := parser.ParseFile(fset, filepath.Join(dir, n), nil, parser.SkipObjectResolution)
+		if err != nil {
+			continue
+		}
+		for _, d := range f.Decls {
+			if fd, ok := d.(*ast.FuncDecl); ok && fd.Recv == nil && fd.Name.IsExported() {
+				seen[fd.Name.Name] = true
+			}
+		}
+	}
+	var out []string
+	for n := range seen {
+		out = append(out, n)
+	}
+	sort.Strings(out)
+	return out
+}
+
+func expectedAPI(repo string) []string {
+	it := exportedFuncs(filepath.Join(repo, "iterator"))
+	st := exportedFuncs(filepath.Join(repo, "stream"))
+	xs := exportedFuncs(filepath.Join(repo, "xslices"))
+	common := map[string]bool{}
+	var out []string
+	for _, n := range it {
+		out = append(out, "iterator."+n)
+		common[n] = true
+	}
+	for _, n := range st {
+		common[n] = true
+		if _, other := apiElsewhere["stream."+n]; !other {
+			out = append(out, "stream."+n)
+		}
+	}
+	for _, n := range xs {
+		if common[n] {
+			out = append(out, "xslices."+n)
+		}
+	}
+	return out
+}
+
+// apiCheck records the per-function call counts and reports every function of the API that no case of
+// this run has called: a hole in the generator (a broken tie, not a property violation).
+func apiCheck() {
+	repo := os.Getenv("VERIF_REPO")
+	if repo == "" {
+		repo = "/repo"
+	}
+	want := expectedAPI(repo)
+	for name, n := range apiCalls {
+		res.CountN("api:"+name, n)
+	}
+	for name, owner := range apiElsewhere {
+		res.CountN("api-elsewhere:"+name+"="+owner, 1)
+	}
+	if len(want) == 0 {
+		res.Fail(vlib.Failure{Source: "correspondence", Kind: "comb-api-list-unreadable",
+			What: "cannot enumerate the exported functions of iterator / stream / xslices under " + repo})
+		return
+	}
+	for _, name := range want {
+		if apiCalls[name] == 0 {
+			res.CountN("api:"+name, 0)
+			res.Fail(vlib.Failure{Source: "correspondence", Kind: "comb-api-never-called",
+				Params: map[string]interface{}{"api": name},
+				What: "no case of this run called " + name + " (named by the property, exported by the package): the generator has a hole"})
+		}
+	}
 }
 
 // ---------------------------------------------------------------------------------------------
@@ -1014,5 +1221,6 @@ func main() {
 		res.Exhaustive = exhaustive(deadline)
 	}
 	flush()
+	apiCheck()
 	res.Write(env.Out)
 }
